@@ -146,6 +146,9 @@ def parse_value(line):
         return ("bool", line == "True")
     if re.fullmatch(r"-?[0-9]+", line):
         return ("int", int(line))
+    # Value::display appends ".0" to a float text without a '.', also for inf / NaN
+    if line in ("inf.0", "-inf.0", "NaN.0"):
+        line = line[:-2]
     try:
         return ("float", float(line))
     except ValueError:
@@ -263,7 +266,7 @@ def run(ctx):
     ctx.rule = ("operator cases `a op b` run through `garden run -c`: (1) every pair of a %d-value boundary "
                 "set (0, small, i64 MIN/MAX and neighbours, ±2^31, ±2^32, u32::MAX and neighbours, ±2^62, "
                 "floor(sqrt(MAX)) and neighbours, 62..65) × the 12 integer operators and `+=`/`-=` (written "
-                "`let x = a  x += b  println(x)`; for `**` with a negative or > u32::MAX exponent only 8 bases); (2) random pairs (uniform 64-bit, boundary±3, ±2^k±2, small, "
+                "`let x = a  x += b  println(x)`; for `**` with a negative or >= 64 exponent only the 8 bases 0, ±1, ±2, 3, MIN, MAX); (2) random pairs (uniform 64-bit, boundary±3, ±2^k±2, small, "
                 "steered next to the overflow edge for + - += -=, small base/exponent for **, near-multiples "
                 "for / %%); (3) all pairs of a %d-value finite float pool (±0.0, subnormal, f64::MAX, 2^53+1, "
                 "0.1…) × `+. -. *. /.`; (4) wrong-operand-type cases. Non-trivial = an operand outside ±2^31, or "
@@ -276,9 +279,9 @@ def run(ctx):
     for op in INT_OPS + UPD_OPS:
         for a in BOUNDARY:
             for b in BOUNDARY:
-                # `**` with a negative or > u32::MAX exponent is decided by the guard alone and each
-                # such case costs a process (it raises): keep 8 bases for those exponents
-                if op == "**" and (b < 0 or b > 2 ** 32 - 1) and a not in few:
+                # `**` with a negative or >= 64 exponent is decided by a guard or overflows for every
+                # base but -1, 0, 1, and each such case costs a process (it raises): keep 8 bases there
+                if op == "**" and (b < 0 or b >= 64) and a not in few:
                     continue
                 cases.append(("int", op, a, b))
     n_boundary = len(cases)
